@@ -118,6 +118,13 @@ std::string symbol_of(void *pc)
             s = s.substr(0, 160) + "...";
         return s;
     }
+    if (info.dli_fbase) {
+        // no dynamic symbol (inlined into an adapter with internal linkage): give the
+        // offset inside the executable, which the driver resolves with addr2line
+        char buf[40];
+        std::snprintf(buf, sizeof buf, "@0x%lx", (unsigned long)((uintptr_t)pc - (uintptr_t)info.dli_fbase - 1));
+        return buf;
+    }
     return "?";
 }
 
